@@ -4,6 +4,7 @@ fn main() {
     let args = parse_args();
 
     install_quiet_panic_hook();
+    install_hang_watchdog("C10", 120, true);
 
     let run = |c: &sc::C10Case, info: &mut CaseInfo| match catch(|| {
         let mut i2 = CaseInfo::default();
@@ -27,6 +28,7 @@ fn main() {
 
     if let Some(path) = &args.replay {
         let (_k, case): (String, sc::C10Case) = load_replay(path);
+        hang_begin("replay", &case);
         let mut info = CaseInfo::default();
 
         finish_replay("C10", path, run(&case, &mut info));
